@@ -222,7 +222,7 @@ pub fn parse1(arg: &str) -> i32 {
 
 /// run one parse in a subprocess with a wall-clock budget
 fn parse_isolated(s: &str, budget: Duration) -> Result<(), String> {
-    let exe = std::env::current_exe().unwrap();
+    let exe = crate::explore::self_exe();
     let mut child = std::process::Command::new(exe)
         .arg("parse1")
         .arg(s)
